@@ -98,6 +98,8 @@ TARGETS = [
     ('Detector_to_stim', 'qce_circuit.addon_stim.circuit_operations', 'DetectorOperation', 'to_stim_instruction'),
     ('Observable_to_stim', 'qce_circuit.addon_stim.circuit_operations', 'LogicalObservableOperation', 'to_stim_instruction'),
     ('CoordinateShift_to_stim', 'qce_circuit.addon_stim.circuit_operations', 'CoordinateShiftOperation', 'to_stim_instruction'),
+    # --- C16: acceptance of simultaneous gates
+    ('Gen_get_mutually_allowed', 'qce_circuit.connectivity.mapping.gate_sequence_generator', 'GateSequenceGenerator', 'get_mutually_allowed'),
     # --- C19: identifiers
     ('ChannelIdentifier_eq', 'qce_circuit.structure.intrf_circuit_operation', 'ChannelIdentifier', '__eq__'),
     ('EdgeIDObj_contains', 'qce_circuit.connectivity.intrf_channel_identifier', 'EdgeIDObj', 'contains'),
